@@ -169,6 +169,10 @@ def run(ctx):
     # the key is stable across identical builds only if the dependency re-hash is the identity when nothing changed (shared with C07)
     from rules import c07
     refile(ctx, c07, {"C07-R4": "C06-R4"}, "C07")
+    # every property term of the key is the hash of a JSON dump: two configurations get different keys only if the dump is injective on
+    # strings (shared with C24; the NUL clause concerns the reader only - a verbatim NUL keeps the dump injective - and is not shared)
+    from rules import c24
+    refile(ctx, c24, {"C24-R1": "C06-R5", "C24-R2": "C06-R6"}, "C24", keep=lambda rule, key: "NUL" not in key)
 
 
 META = {
